@@ -125,10 +125,146 @@ def gen_c02_sites():
         fvn_rows = True
     else:
         raise E.ExtractError('findVerticesNaive: neither the merged-boundary-row form nor the row-per-boundary form the model knows')
-    _order(fb, [r'm\.row\(0\)\[S\]\s*=\s*-1\s*;', r'm\.row\(0\)\.head\(S\)\s*=\s*std::invoke\(p1,\s*\*newVIt\)\s*;',
+    # fixes/C02-5: the plane rows are multiplied by one power of two beyond 2^±16 (and the value divided by it), or not at all
+    if re.search(r'm\.row\(0\)\.head\(S\)\s*=\s*std::invoke\(p1,\s*\*newVIt\)\s*;', fb) and re.search(r'vertices\.second\.emplace_back\(result\[S\]\)\s*;', fb):
+        fvn_scaled = False
+    elif (re.search(r'm\.row\(0\)\.head\(S\)\s*=\s*std::invoke\(p1,\s*\*newVIt\)\s*\*\s*scale\s*;', fb)
+          and re.search(r'm\.row\(i\s*\+\s*1\)\.head\(S\)\s*=\s*std::invoke\(p2,\s*\*std::next\(alphasBegin,\s*index\)\)\s*\*\s*scale\s*;', fb)
+          and re.search(r'vertices\.second\.emplace_back\(result\[S\]\s*/\s*scale\)\s*;', fb)
+          and re.search(r'if\s*\(\s*std::abs\(e\)\s*>\s*16\s*\)\s*scale\s*=\s*std::ldexp\(1\.0,\s*-e\)\s*;', fb)):
+        fvn_scaled = True
+    else:
+        raise E.ExtractError('findVerticesNaive: plane rows are neither copied as they are nor scaled by the power of two the check knows')
+    _order(fb, [r'm\.row\(0\)\[S\]\s*=\s*-1\s*;', r'm\.row\(0\)\.head\(S\)\s*=\s*std::invoke\(p1,\s*\*newVIt\)\s*(\*\s*scale\s*)?;',
                 r'if\s*\(\s*index\s*<\s*alphasSize\s*\)', r'colPivHouseholderQr\(\)\.solve\('], relv)
 
+    # ---- round 3: the outer loop shared by the three solvers, weakBoundDistance, makeValueFunction, LinearSupport's acceptance test,
+    # Witness' row reservation and its handling of a witness point whose best vector is already known, Projecter's generic branch
+    outer_pats = [r'auto\s+v\s*=\s*makeValueFunction\s*\(\s*S\s*\)\s*;',
+                  r'unsigned\s+timestep\s*=\s*0\s*;',
+                  r'const\s+bool\s+useTolerance\s*=\s*checkDifferentSmall\s*\(\s*tolerance_\s*,\s*0\.0\s*\)\s*;',
+                  r'double\s+variation\s*=\s*tolerance_\s*\*\s*2\s*;',
+                  r'while\s*\(\s*timestep\s*<\s*horizon_\s*&&\s*\(\s*!useTolerance\s*\|\|\s*variation\s*>\s*tolerance_\s*\)\s*\)',
+                  r'\+\+timestep\s*;',
+                  r'\(\s*v\[timestep-1\]\s*\)\s*;',                       # project(v[timestep-1])
+                  r'v\.emplace_back\s*\(\s*std::move\s*\(\s*\w+\s*\)\s*\)\s*;',
+                  r'if\s*\(\s*useTolerance\s*\)\s*\{?\s*variation\s*=\s*weakBoundDistance\s*\(\s*v\[timestep-1\]\s*,\s*v\[timestep\]\s*\)\s*;',
+                  r'return\s+std::make_tuple\s*\(\s*useTolerance\s*\?\s*variation\s*:\s*0\.0\s*,\s*v\s*\)\s*;']
+    outer_lines = {}
+    for name, relx in (('IncrementalPruning', reli), ('Witness', 'include/AIToolbox/POMDP/Algorithms/Witness.hpp'),
+                       ('LinearSupport', 'include/AIToolbox/POMDP/Algorithms/LinearSupport.hpp')):
+        src = E.strip_comments(E.read(relx))
+        body, _ = _body(src, r'std::tuple<double,\s*ValueFunction>\s+' + name + r'::operator\(\)\s*\(', name + '::operator()')
+        outer_lines[name] = _order(body, outer_pats, name + '::operator() outer loop')[4] 
+        for setter in (r'if\s*\(\s*t\s*<\s*0\.0\s*\)\s*throw\s+std::invalid_argument',):
+            csrc = E.strip_comments(E.read('src/POMDP/Algorithms/' + name + '.cpp'))
+            if not re.search(setter, csrc):
+                raise E.ExtractError(name + '::setTolerance: the guard `t < 0.0` -> throw was not found')
+    relu = 'src/POMDP/Utils.cpp'
+    us = E.strip_comments(E.read(relu))
+    wb, wb_line = _body(us, r'double\s+weakBoundDistance\s*\(', 'weakBoundDistance')
+    _order(wb, [r'if\s*\(\s*!oldV\.size\(\)\s*\)\s*return\s+0\.0\s*;',
+                r'double\s+distance\s*=\s*0\.0\s*;',
+                r'for\s*\(\s*const\s+auto\s*&\s*newVE\s*:\s*newV\s*\)',
+                r'double\s+closestDistance\s*=\s*std::numeric_limits<double>::infinity\(\)\s*;',
+                r'for\s*\(\s*const\s+auto\s*&\s*oldVE\s*:\s*oldV\s*\)',
+                r'double\s+distance\s*=\s*\(\s*newVE\.values\s*-\s*oldVE\.values\s*\)\.cwiseAbs\(\)\.maxCoeff\(\)\s*;',
+                r'closestDistance\s*=\s*std::min\s*\(\s*closestDistance\s*,\s*distance\s*\)\s*;',
+                r'distance\s*=\s*std::max\s*\(\s*distance\s*,\s*closestDistance\s*\)\s*;',
+                r'return\s+distance\s*;'], 'weakBoundDistance')
+    mv, _ = _body(us, r'ValueFunction\s+makeValueFunction\s*\(', 'makeValueFunction')
+    _order(mv, [r'values\.setZero\(\)\s*;', r'return\s+ValueFunction\s*\(\s*1\s*,\s*VList\s*\(\s*1\s*,\s*\{\s*values\s*,\s*0\s*,\s*VObs\(\)\s*\}\s*\)\s*\)\s*;'], 'makeValueFunction')
+    rell = 'include/AIToolbox/POMDP/Algorithms/LinearSupport.hpp'
+    ls = E.strip_comments(E.read(rell))
+    lsl = _order(ls, [r'allSupports\.emplace\s*\(\s*crossSumBestAtBelief\s*\(\s*corner\s*,\s*projections\s*\)\s*\)',
+                      r'if\s*\(\s*inserted\s*\)\s*goodSupports\.push_back\s*\(\s*\*it\s*\)\s*;',
+                      r'findVerticesNaive\s*\(\s*goodSupports\s*,\s*unwrap\s*\)',
+                      r'if\s*\(\s*triedVertices\.find\s*\(\s*vertex\s*\)\s*!=\s*std::end\s*\(\s*triedVertices\s*\)\s*\)\s*continue\s*;',
+                      r'crossSumBestAtBelief\s*\(\s*vertex\s*,\s*projections\s*,\s*&trueValue\s*\)',
+                      r'findBestAtPoint\s*\(\s*vertex\s*,\s*gsBegin\s*,\s*gsEnd\s*,\s*&currentValue\s*,\s*unwrap\s*\)\s*;',
+                      r'auto\s+diff\s*=\s*trueValue\s*-\s*currentValue\s*;',
+                      r'if\s*\(\s*diff\s*>\s*tolerance_\s*&&\s*checkDifferentGeneral\s*\(\s*diff\s*,\s*tolerance_\s*\)\s*\)',
+                      r'triedVertices\.insert\s*\(',
+                      r'if\s*\(\s*agenda_\.size\(\)\s*==\s*0\s*\)\s*break\s*;',
+                      r'Vertex\s+best\s*=\s*agenda_\.top\(\)\s*;\s*agenda_\.pop\(\)\s*;',
+                      r'if\s*\(\s*it->belief\.dot\s*\(\s*best\.support->values\s*\)\s*>\s*it->currentValue\s*\)',
+                      r'vertices\s*=\s*findVerticesNaive\s*\(\s*supBegin\s*,\s*supEnd\s*,\s*chkBegin\s*,\s*chkEnd\s*,\s*unwrap\s*,\s*unwrap\s*\)\s*;',
+                      r'goodSupports\.push_back\s*\(\s*\*best\.support\s*\)\s*;'], rell)
+    lsc = E.strip_comments(E.read('src/POMDP/Algorithms/LinearSupport.cpp'))
+    if not re.search(r'VertexComparator::operator\(\)\s*\([^)]*\)\s*const\s*\{\s*return\s+lhs\.error\s*<\s*rhs\.error\s*;', lsc):
+        raise E.ExtractError('LinearSupport::VertexComparator is not `lhs.error < rhs.error` (the agenda must pop the LARGEST error: model lsTop)')
+    relw = 'include/AIToolbox/POMDP/Algorithms/Witness.hpp'
+    ws = E.strip_comments(E.read(relw))
+    wl = _order(ws, [r'reserveSize\s*=\s*std::max\s*\(\s*reserveSize\s*,\s*2\s*\*\s*v\[timestep-1\]\.size\(\)\s*\)\s*;',
+                     r'U\[a\]\.clear\(\)\s*;', r'lp\.reset\(\)\s*;', r'agenda_\.clear\(\)\s*;', r'triedVectors_\.clear\(\)\s*;',
+                     r'size_t\s+counter\s*=\s*0\s*;', r'lp\.allocate\s*\(\s*reserveSize\s*\)\s*;',
+                     r'addDefaultEntry\s*\(\s*projections\[a\]\s*\)\s*;',
+                     r'while\s*\(\s*!agenda_\.empty\(\)\s*\)',
+                     r'lp\.findWitness\s*\(\s*agenda_\.back\(\)\s*\)',
+                     r'crossSumBestAtBelief\s*\(\s*\*witness\s*,\s*projections\[a\]\s*,\s*a\s*\)',
+                     r'lp\.addOptimalRow\s*\(\s*U\[a\]\.back\(\)\.values\s*\)\s*;',
+                     r'addVariations\s*\(\s*projections\[a\]\s*,\s*U\[a\]\.back\(\)\s*\)\s*;',
+                     r'if\s*\(\s*\+\+counter\s*==\s*reserveSize\s*\)\s*\{\s*reserveSize\s*\*=\s*2\s*;\s*lp\.allocate\s*\(\s*reserveSize\s*\)\s*;',
+                     r'else\s+agenda_\.pop_back\(\)\s*;',
+                     r'triedVectors_\.emplace\s*\(\s*O\s*,\s*0\s*\)\s*;',
+                     r'const\s+size_t\s+skip\s*=\s*vObs\[o\]\s*;',
+                     r'if\s*\(\s*i\s*==\s*skip\s*\)\s*continue\s*;',
+                     r'if\s*\(\s*triedVectors_\.find\s*\(\s*vObs\s*\)\s*!=\s*std::end\s*\(\s*triedVectors_\s*\)\s*\)\s*continue\s*;',
+                     r'triedVectors_\.insert\s*\(\s*vObs\s*\)\s*;',
+                     r'auto\s+v\s*=\s*vValues\s*-\s*projs\[o\]\[skip\]\.values\s*\+\s*projs\[o\]\[i\]\.values\s*;',
+                     r'vObs\[o\]\s*=\s*skip\s*;'], relw)
+    # does the loop drop a "witness" whose best vector is already in U[a] (fixes/C02-4)?  Either the shipped form or the guarded one.
+    if re.search(r'U\[a\]\.push_back\s*\(\s*crossSumBestAtBelief\s*\(\s*\*witness\s*,\s*projections\[a\]\s*,\s*a\s*\)\s*\)\s*;', ws):
+        w_guard = False
+    elif (re.search(r'auto\s+best\s*=\s*crossSumBestAtBelief\s*\(\s*\*witness\s*,\s*projections\[a\]\s*,\s*a\s*\)\s*;', ws)
+          and re.search(r'return\s+e\.values\s*==\s*best\.values\s*;', ws)
+          and re.search(r'if\s*\(\s*std::any_of\s*\(\s*std::begin\(U\[a\]\)\s*,\s*std::end\(U\[a\]\)\s*,\s*sameValues\s*\)\s*\)\s*\{\s*agenda_\.pop_back\(\)\s*;\s*continue\s*;\s*\}\s*U\[a\]\.push_back\s*\(\s*std::move\s*\(\s*best\s*\)\s*\)\s*;', ws)):
+        w_guard = True
+    else:
+        raise E.ExtractError('Witness loop: neither the shipped `U[a].push_back(crossSumBestAtBelief(...))` nor the guarded form the model knows')
+    # Projecter's generic branch: a view of a temporary (shipped) or a materialised matrix (fixes/C02-3)
+    if re.search(r'else\s+return\s+MDP::computeImmediateRewards\s*\(\s*model_\s*\)\.transpose\(\)\s*;', p):
+        proj_mat = False
+    elif re.search(r'else\s+return\s+Matrix2D\s*\(\s*MDP::computeImmediateRewards\s*\(\s*model_\s*\)\.transpose\(\)\s*\)\s*;', p):
+        proj_mat = True
+    else:
+        raise E.ExtractError('Projecter::computeImmediateRewards: generic branch has neither form the check knows')
+    # helpers one level down (include/AIToolbox/Utils/Core.hpp, Polytope.hpp, POMDP/Utils.hpp): the exact comparison forms the model copies
+    core = E.strip_comments(E.read('include/AIToolbox/Utils/Core.hpp'))
+    for pat, what in ((r'inline\s+bool\s+checkEqualSmall\s*\(\s*const\s+double\s+a\s*,\s*const\s+double\s+b\s*\)\s*\{\s*return\s*\(\s*std::fabs\s*\(\s*a\s*-\s*b\s*\)\s*<=\s*equalToleranceSmall\s*\)\s*;', 'checkEqualSmall'),
+                      (r'inline\s+bool\s+checkDifferentSmall\s*\(\s*const\s+double\s+a\s*,\s*const\s+double\s+b\s*\)\s*\{\s*return\s*!checkEqualSmall\s*\(\s*a\s*,\s*b\s*\)\s*;', 'checkDifferentSmall'),
+                      (r'if\s*\(\s*checkEqualSmall\s*\(\s*a\s*,\s*b\s*\)\s*\)\s*return\s+true\s*;\s*return\s*\(\s*std::fabs\s*\(\s*a\s*-\s*b\s*\)\s*<=\s*std::min\s*\(\s*std::fabs\s*\(\s*a\s*\)\s*,\s*std::fabs\s*\(\s*b\s*\)\s*\)\s*\*\s*equalToleranceGeneral\s*\)\s*;', 'checkEqualGeneral'),
+                      (r'inline\s+bool\s+checkDifferentGeneral\s*\(\s*const\s+double\s+a\s*,\s*const\s+double\s+b\s*\)\s*\{\s*return\s*!checkEqualGeneral\s*\(\s*a\s*,\s*b\s*\)\s*;', 'checkDifferentGeneral'),
+                      (r'if\s*\(\s*lhs\[i\]\s*==\s*rhs\[i\]\s*\)\s*continue\s*;\s*return\s+lhs\[i\]\s*>\s*rhs\[i\]\s*\?\s*std::strong_ordering::greater\s*:\s*std::strong_ordering::less\s*;', 'veccmp')):
+        if not re.search(pat, core):
+            raise E.ExtractError('Core.hpp: ' + what + ' does not have the form the model copies')
+    tie = r'if\s*\(\s*currValue\s*>\s*bestValue\s*\|\|\s*\(\s*currValue\s*==\s*bestValue\s*&&\s*veccmp\s*\(\s*std::invoke\s*\(\s*p\s*,\s*\*begin\s*\)\s*,\s*std::invoke\s*\(\s*p\s*,\s*\*bestMatch\s*\)\s*\)\s*>\s*0\s*\)\s*\)'
+    if len(re.findall(tie, pv)) < 2:
+        raise E.ExtractError('Polytope.hpp: findBestAtPoint / findBestAtSimplexCorner tie-break is not `value > best || (value == best && veccmp > 0)`')
+    pu = E.strip_comments(E.read('include/AIToolbox/POMDP/Utils.hpp'))
+    _order(pu, [r'auto\s+bestMatch\s*=\s*findBestAtPoint\s*\(\s*b\s*,\s*begin\s*,\s*end\s*,\s*&tmp\s*,\s*unwrap\s*\)\.base\(\)\s*;',
+                r'out\.values\s*\+=\s*bestMatch->values\s*;', r'v\s*\+=\s*tmp\s*;', r'out\.observations\[o\]\s*=\s*bestMatch->observations\[0\]\s*;',
+                r'auto\s+entry\s*=\s*makeVEntry\s*\(\s*b\.size\(\)\s*,\s*a\s*,\s*row\.size\(\)\s*\)\s*;',
+                r'VEntry\s+entry\s*=\s*crossSumBestAtBelief\s*\(\s*b\s*,\s*projs\[0\]\s*,\s*\(size_t\)0\s*,\s*&bestValue\s*\)\s*;',
+                r'for\s*\(\s*size_t\s+a\s*=\s*1\s*;\s*a\s*<\s*A\s*;\s*\+\+a\s*\)', r'helper\.action\s*=\s*a\s*;',
+                r'if\s*\(\s*tmp\s*>\s*bestValue\s*\)\s*\{\s*bestValue\s*=\s*tmp\s*;\s*std::swap\s*\(\s*entry\s*,\s*helper\s*\)\s*;'], 'POMDP/Utils.hpp crossSumBestAtBelief')
+
     out = ['/- GENERATED by tools/extract_c02.py from the library source — do not edit. -/', 'namespace AITB.Gen.C02', '',
+           f'/-- {relw}: the per-action loop drops a witness point whose best vector is already in U[a] (fixes/C02-4) -/',
+           f'def witnessSkipsKnownVector : Bool := {"true" if w_guard else "false"}',
+           f'/-- {relp}: the generic branch of computeImmediateRewards materialises the transposed matrix (fixes/C02-3) -/',
+           f'def projecterGenericMaterialises : Bool := {"true" if proj_mat else "false"}',
+           f'/-- {relv}: findVerticesNaive scales the plane rows by one power of two beyond 2^±16 (fixes/C02-5) -/',
+           f'def fvnScalesPlanes : Bool := {"true" if fvn_scaled else "false"}',
+           f'/-- {reli} {relw} {rell} — the same ten statements, in order, in all three operator() -/',
+           'def outerLoopSites : List String := ["makeVF", "timestep0", "useTolerance", "variation2tol", "while", "inc", "projectPrev", "emplace", "wbd", "ret"]',
+           f'/-- {relu}:{wb_line} -/',
+           'def wbdSites : List String := ["emptyOld0", "dist0", "forNew", "closestInf", "forOld", "maxAbsDiff", "min", "max", "ret"]',
+           f'/-- {rell}:{lsl[0]} -/',
+           'def lsLoopSites : List String := ["cornerSupports", "pushIfInserted", "verticesOfGood", "skipTried", "supportAtVertex", "currentValue", "diff", "acceptTest", "markTried", "breakIfEmpty", "popTop", "obsoleteTest", "verticesOfNew", "pushBest", "errorLess"]',
+           f'/-- {relw}:{wl[0]} -/',
+           'def witnessLoopSites : List String := ["reserveMax", "clearU", "lpReset", "clearAgenda", "clearTried", "counter0", "allocate", "defaultEntry", "while", "findWitnessBack", "bestAtWitness", "addRow", "addVariations", "doubleReserve", "popIfNone", "defaultTried", "skipIdx", "skipSame", "skipTried", "markTried", "variationValues", "restore"]',
+           'def helperForms : List String := ["checkEqualSmall", "checkDifferentSmall", "checkEqualGeneral", "checkDifferentGeneral", "veccmp", "findBestAtPointTie", "crossSumBestAtBelief"]',
            f'/-- {rel}:{ub_line} -/', f'def rtbssGeometricBound : Bool := {"true" if geometric else "false"}',
            f'/-- {rel}:{sim_line} -/', f'def rtbssCompareInsidePrune : Bool := {"true" if inside else "false"}',
            f'/-- {relv}:{fv_line} -/', f'def fvnBoundaryRows : Bool := {"true" if fvn_rows else "false"}',
